@@ -85,6 +85,9 @@ def err_fact(ct, cls: str, e: Any, Sx: Any, v: Any) -> Any:
                            z3.Not(M.py_eq(M.attr("version")(v), M.mk_int(4))),
                            A("actual_version") == M.attr("version")(v),
                            A("expected_version") == M.mk_int(4)))
+    if cls in S.VALUE_TYPE and len(alts) > 1:
+        isT = M.isinstance_f(ct, v, S.VALUE_TYPE[cls])
+        alts = [alts[0]] + [z3.And(isT, a) for a in alts[1:]]
     return z3.Or(*alts) if alts else z3.BoolVal(False)
 
 
@@ -132,6 +135,7 @@ def scalar_visit(cls: str):
         c.ensures("result", lambda r, post: z3.And(*S.is_result(ct, r)), ("C02",))
         c.ensures("verdict", lambda r, post: S.no_errors(r) == S.conforms_def(ct, cls, Sx, v), ("C02",))
         c.ensures("located", lambda r, post: located(ct, cls, r, Sx, v, pseq, post), ("C03",))
+        c.ensures("errors-wf", lambda r, post: errs_alloc(S.errors_of(r), post.alloc), ("C03", "C08"))
         c.ensures("path-frame", lambda r, post: path_frame(post), ("C03", "C07"))
         if cls == "FloatSchema":
             c.known_region("C02-float-nan", "visit_float:ensures[verdict]",
@@ -156,3 +160,466 @@ def _inv_alphabet(L):
     return z3.And(L.v("result") == L.pre("result"),
                   z3.ForAll([j], z3.Implies(z3.And(0 <= j, j < L.i), z3.Contains(a, z3.SubString(v, j, 1))),
                             patterns=[z3.SubString(v, j, 1)]))
+
+
+# =====================================================================================================
+# Containers: Accept[Validator], ValidationResult.add_errors, _validate_elements, visit_list/dict/any/alias
+# =====================================================================================================
+located_u = z3.Function("located_u", Obj, Obj, Obj, M.SeqObj, M.SeqObj, M.B)
+"""located_u(e, S, v, base, epath): error e, found while validating value v against schema S reached
+under path `base`, sits at path `epath` below `base`, reports the sub-value found there and states a
+true fact about it.  Defined by cases on the class of S (located_def); members appear only under
+located_u itself (structural induction, as for `conforms`)."""
+
+
+def epath(post_ph: Any, e: Any) -> Any:
+    return z3.Select(post_ph, M.attr("path")(e))
+
+
+def transparent_more():
+    transparent(RES, "ValidationResult.__init__")
+
+
+def local_head(ct, e, v, base, ep):
+    return z3.And(M.is_Ref(e), ep == base, M.attr("actual_value")(e) == v)
+
+
+def located_def(ct, cls: str, e: Any, Sx: Any, v: Any, base: Any, ep: Any) -> Any:
+    """Definition of located_u for a schema of class `cls`."""
+    if cls not in ("ListSchema", "DictSchema", "AnySchema", "TypeAliasSchema"):
+        return z3.And(local_head(ct, e, v, base, ep), err_fact(ct, cls, e, Sx, v))
+    ec = M.rcls(e)
+    A = lambda n: M.attr(n)(e)
+    E_ = lambda n: ec == ct.id(n + "ValidationError")
+    P = lambda n: S.prop(Sx, n)
+    D = lambda n: S.declared(Sx, n)
+    if cls == "TypeAliasSchema":
+        r = S.reg_of(Sx)
+        return z3.And(M.has(r, S.S_("type")), located_u(e, M.dget(r, S.S_("type")), v, base, ep))
+    if cls == "AnySchema":
+        t = P("types")
+        j = z3.Int("aj")
+        return z3.And(local_head(ct, e, v, base, ep), E_("SchemaMismatch"), D("types"),
+                      A("expected_schemas") == t,
+                      z3.ForAll([j], z3.Implies(z3.And(0 <= j, j < M.llen(t)), z3.Not(S.conforms(M.lat(t, j), v))),
+                                patterns=[M.lat(t, j)]))
+    if cls == "ListSchema":
+        n = M.llen(v)
+        El = P("elements")
+        m = M.llen(El)
+        idx = M.int_of(A("index"))
+        islist = M.isinstance_f(ct, v, "list")
+        local = z3.And(local_head(ct, e, v, base, ep), z3.Or(
+            z3.And(E_("Type"), z3.Not(islist), A("expected_type") == M.ClsV(ct.id("list"))),
+            z3.And(E_("Length"), islist, D("len"), A("length") == P("len"), n != M.int_of(P("len"))),
+            z3.And(E_("MinLength"), islist, D("min_len"), A("min_length") == P("min_len"), n < M.int_of(P("min_len"))),
+            z3.And(E_("MaxLength"), islist, D("max_len"), A("max_length") == P("max_len"), n > M.int_of(P("max_len"))),
+            z3.And(E_("MissingElement"), islist, D("elements"), M.is_intlike(A("index")), idx >= n, idx >= 0),
+            z3.And(E_("ExtraElement"), islist, D("elements"), M.is_intlike(A("index")), idx >= 0, idx < n,
+                   idx >= m)))
+        j = z3.Int("dj")
+        k = z3.Int("dk")
+        desc_typed = z3.And(D("type"), z3.Exists([j], z3.And(
+            0 <= j, j < n, located_u(e, P("type"), M.lat(v, j), z3.Concat(base, z3.Unit(M.IntV(j))), ep))))
+        desc_elems = z3.And(D("elements"), z3.Exists([j, k], z3.And(
+            0 <= j, j < n, 0 <= k, k < m, M.lat(El, k) != M.EllV,
+            located_u(e, M.lat(El, k), M.lat(v, j), z3.Concat(base, z3.Unit(M.IntV(j))), ep))))
+        return z3.Or(local, z3.And(islist, z3.Or(desc_typed, desc_elems)))
+    if cls == "DictSchema":
+        K = P("keys")
+        isdict = M.isinstance_f(ct, v, "dict")
+        local = z3.And(local_head(ct, e, v, base, ep), z3.Or(
+            z3.And(E_("Type"), z3.Not(isdict), A("expected_type") == M.ClsV(ct.id("dict"))),
+            z3.And(E_("MissingKey"), isdict, D("keys"), M.has(K, A("missing_key")), A("missing_key") != M.EllV,
+                   z3.Not(M.has(v, A("missing_key"))),
+                   M.lat(M.dget(K, A("missing_key")), 1) != M.mk_bool(True)),
+            z3.And(E_("ExtraKey"), isdict, D("keys"), M.has(v, A("extra_key")), z3.Not(M.has(K, A("extra_key"))),
+                   z3.Not(M.has(K, M.EllV)))))
+        x = z3.Const("dx", Obj)
+        desc = z3.And(isdict, D("keys"), z3.Exists([x], z3.And(
+            M.has(K, x), x != M.EllV, M.has(v, x),
+            located_u(e, M.lat(M.dget(K, x), 0), M.dget(v, x), z3.Concat(base, z3.Unit(x)), ep))))
+        return z3.Or(local, desc)
+    raise KeyError(cls)
+
+
+def errs_located(errs: Any, pred) -> Any:
+    j = z3.Int("ej")
+    return z3.ForAll([j], z3.Implies(z3.And(0 <= j, j < M.llen(errs)), pred(M.lat(errs, j))),
+                     patterns=[M.lat(errs, j)])
+
+
+ERR_NAMES = ["Type", "Value", "MinValue", "MaxValue", "Length", "MinLength", "MaxLength", "Alphabet",
+             "Substr", "Regex", "MissingElement", "ExtraElement", "MissingKey", "ExtraKey",
+             "SchemaMismatch", "InvalidUUIDVersion"]
+
+
+def sized(ct, x: Any) -> Any:
+    return z3.Or(M.is_StrV(x), M.is_BytesV(x),
+                 z3.And(M.is_Ref(x), z3.Or(ct.sub_formula(M.rcls(x), "list"), ct.sub_formula(M.rcls(x), "tuple"),
+                                           ct.sub_formula(M.rcls(x), "dict"), ct.sub_formula(M.rcls(x), "set"))))
+
+
+def err_wf(ct, e: Any, alloc: Any) -> Any:
+    """Representation invariant of a reported error (what the formatter relies on): one of the 16
+    error classes, its PathHolder is allocated, length errors carry a sized value and an int length,
+    element errors an int index."""
+    ec = M.rcls(e)
+    E = lambda n: ec == ct.id(n + "ValidationError")
+    A = lambda n: M.attr(n)(e)
+    p = A("path")
+    return z3.And(
+        M.is_Ref(e), z3.Or(*[E(n) for n in ERR_NAMES]),
+        M.is_Ref(p), M.rcls(p) == ct.id("PathHolder"), M.rid(p) < alloc,
+        z3.Implies(E("Length"), z3.And(sized(ct, A("actual_value")), M.is_intlike(A("length")))),
+        z3.Implies(E("MinLength"), z3.And(sized(ct, A("actual_value")), M.is_intlike(A("min_length")))),
+        z3.Implies(E("MaxLength"), z3.And(sized(ct, A("actual_value")), M.is_intlike(A("max_length")))),
+        z3.Implies(z3.Or(E("MissingElement"), E("ExtraElement")), M.is_intlike(A("index"))))
+
+
+def errs_alloc(errs: Any, alloc: Any) -> Any:
+    """every error is well-formed and its PathHolder has been allocated (so later frames preserve it)"""
+    return errs_located(errs, lambda e: err_wf(S.CT, e, alloc))
+
+
+@accept_contract("Validator", props=("C02", "C03", "C08", "C16"))
+def _accept_validator(c):
+    """Accept[Validator]: what every Validator.visit_* is separately proved to satisfy (modular rule)."""
+    ct = c.ct
+    Mx = c.sym("schema")
+    v = c.sym("value")
+    p = c.sym("path", "PathHolder")
+    c.requires(S.is_schema(ct, Mx), "member-is-schema")
+    c.requires(S.wf(Mx), "member-wf")
+    c.requires(S.path_ok(ct, p, c.pre_alloc), "path")
+    c.paths()
+    c.returns("ValidationResult")
+    c.raises()
+    base = S.pathseq_in(c.pre_ph, p)
+    c.ensures("result", lambda r, post: z3.And(*S.is_result(ct, r)))
+    c.ensures("verdict", lambda r, post: S.no_errors(r) == S.conforms(Mx, v))
+    c.ensures("located", lambda r, post: z3.And(
+        errs_alloc(S.errors_of(r), post.alloc),
+        errs_located(S.errors_of(r), lambda e: located_u(e, Mx, v, base, epath(post.ph, e)))))
+    c.ensures("path-frame", lambda r, post: path_frame(post))
+
+
+@contract(RES, "ValidationResult.add_errors", props=("C02", "C03", "C07"), group="validator")
+def _add_errors(c):
+    ct = c.ct
+    c.declare("self", "ValidationResult")
+    errs = c.sym("errors", "list")
+    c.requires(M.isinstance_f(ct, errs, "list"))
+    c.raises()
+    c.mutates("self", "_errors", lambda old, new: concat_rel(new, old, errs))
+    c.returns_arg = "self"
+
+
+def concat_rel(new: Any, a: Any, b: Any) -> Any:
+    j = z3.Int("cj")
+    return z3.And(M.llen(new) == M.llen(a) + M.llen(b),
+                  z3.ForAll([j], z3.Implies(z3.And(0 <= j, j < M.llen(a)), M.lat(new, j) == M.lat(a, j)),
+                            patterns=[M.lat(new, j)]),
+                  z3.ForAll([j], z3.Implies(z3.And(0 <= j, j < M.llen(b)), M.lat(new, M.llen(a) + j) == M.lat(b, j)),
+                            patterns=[M.lat(b, j)]),
+                  z3.ForAll([j], z3.Implies(z3.And(M.llen(a) <= j, j < M.llen(a) + M.llen(b)),
+                                            M.lat(new, j) == M.lat(b, j - M.llen(a))),
+                            patterns=[M.lat(new, j)]))
+
+
+@invariant(RES, "ValidationResult.add_errors", loop=0)
+def _inv_add_errors(L):
+    errs = L.v("errors")
+    cur = L.v("self")
+    old = L.pre("self")
+    j = z3.Int("ij")
+    return z3.And(M.llen(cur) == M.llen(old) + L.i,
+                  z3.ForAll([j], z3.Implies(z3.And(0 <= j, j < M.llen(old)), M.lat(cur, j) == M.lat(old, j)),
+                            patterns=[M.lat(cur, j)]),
+                  z3.ForAll([j], z3.Implies(z3.And(0 <= j, j < L.i), M.lat(cur, M.llen(old) + j) == M.lat(errs, j)),
+                            patterns=[M.lat(errs, j)]),
+                  z3.ForAll([j], z3.Implies(z3.And(M.llen(old) <= j, j < M.llen(old) + L.i),
+                                            M.lat(cur, j) == M.lat(errs, j - M.llen(old))),
+                            patterns=[M.lat(cur, j)]))
+
+
+# ----------------------------------------------------------------------------- _validate_elements
+def ve_located(ct, e, El, v, start, base, ep, upto):
+    """clause for one error of _validate_elements: a MissingElement at this level, or an error located
+    under element j < upto"""
+    n = M.llen(v)
+    j = z3.Int("vj")
+    idx = M.int_of(M.attr("index")(e))
+    missing = z3.And(M.rcls(e) == ct.id("MissingElementValidationError"), ep == base,
+                     M.attr("actual_value")(e) == v, M.is_intlike(M.attr("index")(e)),
+                     idx >= n, idx >= start, idx < start + upto)
+    under = z3.Exists([j], z3.And(0 <= j, j < upto, start + j < n,
+                                  located_u(e, M.lat(El, j), M.lat(v, start + j),
+                                            z3.Concat(base, z3.Unit(M.IntV(start + j))), ep)))
+    return z3.And(M.is_Ref(e), z3.Or(missing, under))
+
+
+def elems_conform(El, v, start, upto):
+    return S.window_ok(El, 0, upto, v, start)
+
+
+def elements_wf(ct, El):
+    j = z3.Int("wj")
+    return z3.And(M.isinstance_f(ct, El, "list"),
+                  z3.ForAll([j], z3.Implies(z3.And(0 <= j, j < M.llen(El)),
+                                            z3.And(S.is_schema(ct, M.lat(El, j)), S.wf(M.lat(El, j)))),
+                            patterns=[M.lat(El, j)]))
+
+
+@contract(VAL, "Validator._validate_elements", props=("C02", "C03", "C08", "C07", "C16"), group="validator")
+def _validate_elements(c):
+    ct = c.ct
+    c.built_self("Validator")
+    p = c.sym("path", "PathHolder")
+    v = c.sym("value", "list")
+    El = c.sym("elements", "list")
+    st = c.sym("start", "int")
+    c.kwargs()
+    n, k, s0 = M.llen(v), M.llen(El), M.int_of(st)
+    c.requires(z3.And(M.is_Ref(p), M.rcls(p) == ct.id("PathHolder"), M.rid(p) < c.pre_alloc), "path")
+    c.requires(M.isinstance_f(ct, v, "list"), "value-is-list")
+    c.requires(elements_wf(ct, El), "elements-wf")
+    c.requires(z3.And(M.is_intlike(st), s0 >= 0, z3.Or(k > 0, s0 <= n)), "start")
+    c.paths()
+    c.raises()
+    c.returns("list")
+    base = z3.Select(c.pre_ph, p)
+    c.ensures("is-list", lambda r, post: z3.And(M.is_Ref(r), M.rcls(r) == ct.id("list")))
+    c.ensures("verdict", lambda r, post: (M.llen(r) == 0) == z3.And(s0 + k <= n, elems_conform(El, v, s0, k)),
+              ("C02",))
+    c.ensures("located", lambda r, post: z3.And(
+        errs_alloc(r, post.alloc),
+        errs_located(r, lambda e: ve_located(ct, e, El, v, s0, base, epath(post.ph, e), k))), ("C03",))
+    c.ensures("path-frame", lambda r, post: path_frame(post), ("C03", "C07"))
+
+
+@invariant(VAL, "Validator._validate_elements", loop=0)
+def _inv_validate_elements(L):
+    ct = L.ct
+    errs = L.v("errors")
+    v, El = L.v("value"), L.v("elements")
+    s0 = M.int_of(L.v("start"))
+    n = M.llen(v)
+    base = z3.Select(L.ph_entry, L.v("path"))
+    j = z3.Int("ij")
+    return z3.And(
+        M.is_Ref(errs), M.rcls(errs) == ct.id("list"),
+        z3.ForAll([j], z3.Implies(z3.And(0 <= j, j < L.i), s0 + j < n), patterns=[M.lat(El, j)]),
+        z3.Implies(L.i > 0, s0 + L.i - 1 < n),
+        (M.llen(errs) == 0) == elems_conform(El, v, s0, L.i),
+        errs_alloc(errs, L.alloc),
+        errs_located(errs, lambda e: ve_located(ct, e, El, v, s0, base, z3.Select(L.ph, M.attr("path")(e)), L.i)),
+        z3.Select(L.ph, L.v("path")) == base)
+
+
+# ----------------------------------------------------------------------------- container visits
+def container_visit(cls: str, visitor: str = "Validator"):
+    def body(c):
+        ct = c.ct
+        c.built_self(visitor)
+        Sx = c.sym("schema", cls)
+        v = c.sym("value")
+        p = c.sym("path", "PathHolder")
+        c.kwargs()
+        for f in S.wf_def(ct, cls, Sx):
+            c.requires(f)
+        c.requires(S.path_ok(ct, p, c.pre_alloc), "path")
+        c.requires(S.float_range(v), "float-repr")
+        c.paths()
+        c.returns("ValidationResult")
+        c.raises(props=("C08",))
+        base = S.pathseq_in(c.pre_ph, p)
+        c.ensures("result", lambda r, post: z3.And(*S.is_result(ct, r)), ("C02",))
+        c.ensures("verdict", lambda r, post: S.no_errors(r) == S.conforms_def(ct, cls, Sx, v), ("C02",))
+        c.ensures("located", lambda r, post: z3.And(
+            errs_alloc(S.errors_of(r), post.alloc),
+            errs_located(S.errors_of(r), lambda e: located_def(ct, cls, e, Sx, v, base, epath(post.ph, e)))),
+            ("C03",))
+        c.ensures("path-frame", lambda r, post: path_frame(post), ("C03", "C07"))
+    return body
+
+
+for _m, _cls in [("visit_list", "ListSchema"), ("visit_dict", "DictSchema"), ("visit_any", "AnySchema"),
+                 ("visit_type_alias", "TypeAliasSchema")]:
+    contract(VAL, f"Validator.{_m}", props=("C02", "C03", "C08", "C07", "C16"), group="validator")(
+        container_visit(_cls))
+
+
+def _path_fixed(L):
+    return z3.Select(L.ph, L.v("path")) == z3.Select(L.ph_entry, L.v("path"))
+
+
+def _base(L):
+    return z3.Select(L.ph_entry, L.v("path"))
+
+
+@invariant(VAL, "Validator.visit_list", loop=0)
+def _inv_list_typed(L):
+    """L3: typed list -- no error so far iff every element so far conforms; every error is located under
+    an element index already visited."""
+    ct = L.ct
+    errs, v = L.v("result"), L.v("value")
+    t = L.v("type_schema")
+    j = z3.Int("tj")
+    ej = z3.Int("ej2")
+    base = _base(L)
+    return z3.And(
+        M.is_Ref(errs), M.rcls(errs) == ct.id("list"),
+        (M.llen(errs) == 0) == z3.ForAll([j], z3.Implies(z3.And(0 <= j, j < L.i), S.conforms(t, M.lat(v, j))),
+                                         patterns=[M.lat(v, j)]),
+        errs_alloc(errs, L.alloc),
+        errs_located(errs, lambda e: z3.Exists([ej], z3.And(
+            0 <= ej, ej < L.i, located_u(e, t, M.lat(v, ej), z3.Concat(base, z3.Unit(M.IntV(ej))),
+                                         z3.Select(L.ph, M.attr("path")(e)))))),
+        _path_fixed(L))
+
+
+@invariant(VAL, "Validator.visit_list", loop=1)
+def _inv_list_contains(L):
+    """L4: all_errors[m] is the error list of window m (empty iff the window fits and conforms)."""
+    ct = L.ct
+    ae, v, El = L.v("all_errors"), L.v("value"), L.v("elements")
+    n, kk = M.llen(v), M.llen(El) - 2
+    base = _base(L)
+    m = z3.Int("wm")
+    ej = z3.Int("we")
+    inner = lambda mm: M.lat(ae, mm)
+    win_ok = lambda mm: z3.And(mm + kk <= n, S.window_ok(El, 1, kk, v, mm))
+    return z3.And(
+        M.is_Ref(ae), M.rcls(ae) == ct.id("list"), M.llen(ae) == L.i,
+        L.v("result") == L.pre("result"),
+        z3.ForAll([m], z3.Implies(z3.And(0 <= m, m < L.i), z3.And(
+            M.is_Ref(inner(m)), M.rcls(inner(m)) == ct.id("list"),
+            (M.llen(inner(m)) == 0) == win_ok(m),
+            errs_alloc(inner(m), L.alloc),
+            z3.ForAll([ej], z3.Implies(z3.And(0 <= ej, ej < M.llen(inner(m))),
+                                       ve_located_off(ct, M.lat(inner(m), ej), El, 1, v, m, base,
+                                                      z3.Select(L.ph, M.attr("path")(M.lat(inner(m), ej))), kk)),
+                      patterns=[M.lat(inner(m), ej)]))),
+            patterns=[M.lat(ae, m), S.window_ok(El, 1, kk, v, m)]),
+        _path_fixed(L))
+
+
+def ve_located_off(ct, e, El, eoff, v, start, base, ep, upto):
+    """ve_located with the element schemas taken from El[eoff + j]"""
+    n = M.llen(v)
+    j = z3.Int("vj")
+    idx = M.int_of(M.attr("index")(e))
+    missing = z3.And(M.rcls(e) == ct.id("MissingElementValidationError"), ep == base,
+                     M.attr("actual_value")(e) == v, M.is_intlike(M.attr("index")(e)),
+                     idx >= n, idx >= start, idx < start + upto)
+    under = z3.Exists([j], z3.And(0 <= j, j < upto, start + j < n,
+                                  located_u(e, M.lat(El, eoff + j), M.lat(v, start + j),
+                                            z3.Concat(base, z3.Unit(M.IntV(start + j))), ep)))
+    return z3.And(M.is_Ref(e), z3.Or(missing, under))
+
+
+@invariant(VAL, "Validator.visit_list", loop=2)
+def _inv_list_extra(L):
+    """L5: the errors recorded before the loop are kept; one ExtraElement error per surplus index."""
+    ct = L.ct
+    errs, pre, v, El = L.v("result"), L.pre("result"), L.v("value"), L.v("elements")
+    n, m = M.llen(v), M.llen(El)
+    j = z3.Int("xj")
+    pth = L.v("path")
+    return z3.And(
+        M.is_Ref(errs), M.rcls(errs) == ct.id("list"),
+        M.llen(errs) == M.llen(pre) + L.i,
+        z3.ForAll([j], z3.Implies(z3.And(0 <= j, j < M.llen(pre)), M.lat(errs, j) == M.lat(pre, j)),
+                  patterns=[M.lat(errs, j)]),
+        z3.ForAll([j], z3.Implies(z3.And(M.llen(pre) <= j, j < M.llen(errs)), z3.And(
+            M.is_Ref(M.lat(errs, j)),
+            M.rcls(M.lat(errs, j)) == ct.id("ExtraElementValidationError"),
+            M.attr("path")(M.lat(errs, j)) == pth,
+            M.attr("actual_value")(M.lat(errs, j)) == v,
+            M.attr("index")(M.lat(errs, j)) == M.IntV(m + (j - M.llen(pre))))),
+            patterns=[M.lat(errs, j)]),
+        _path_fixed(L),
+        z3.ForAll([j], z3.Implies(z3.And(0 <= j, j < M.llen(pre)),
+                                  z3.Select(L.ph, M.attr("path")(M.lat(pre, j))) ==
+                                  z3.Select(L.ph_entry, M.attr("path")(M.lat(pre, j)))),
+                  patterns=[M.lat(pre, j)]))
+
+
+# ----------------------------------------------------------------------------- definitional unfolding
+def _schema_freeze_hook(ex, st, cls: str, ident: Any) -> None:
+    """A schema object built concretely in the code under verification (e.g. the `AnySchema()` default of
+    TypeAliasProps.type, or the result of a substitution): unfold the *definitions* of the specification
+    relations for its class -- wf(x) := wf_def(cls, x), conforms(x, v) := conforms_def(cls, x, v)."""
+    if cls not in S.PROP_NAMES:
+        return
+    ct = ex.ct
+    w = z3.Const("uv", Obj)
+    st.assume(S.wf(ident) == z3.And(*S.wf_def(ct, cls, ident)),
+              z3.ForAll([w], S.conforms(ident, w) == S.conforms_def(ct, cls, ident, w),
+                        patterns=[S.conforms(ident, w)]))
+
+
+from pyvc.contracts import REG as _REG  # noqa: E402
+_REG.schema_freeze_hook = _schema_freeze_hook
+
+
+# ----------------------------------------------------------------------------- visit_dict / visit_any invariants
+def dict_key_ok(K, v, x):
+    pair = M.dget(K, x)
+    return z3.Or(x == M.EllV,
+                 z3.If(M.has(v, x), S.conforms(M.lat(pair, 0), M.dget(v, x)), M.lat(pair, 1) == M.mk_bool(True)))
+
+
+def dict_err_located(ct, e, Sx, K, v, base, ep):
+    """an error produced by the two loops of visit_dict: exactly located_def(DictSchema) minus Type"""
+    return located_def(ct, "DictSchema", e, Sx, v, base, ep)
+
+
+@invariant(VAL, "Validator.visit_dict", loop=0)
+def _inv_dict_declared(L):
+    """L6: no error so far iff every declared key seen so far is satisfied (present and conforming, or
+    absent and optional); every error is a MissingKey at this level or located under a present key."""
+    ct = L.ct
+    errs, v, Sx = L.v("result"), L.v("value"), L.v("schema")
+    K = S.prop(Sx, "keys")
+    base = _base(L)
+    j = z3.Int("kj")
+    return z3.And(
+        M.is_Ref(errs), M.rcls(errs) == ct.id("list"),
+        (M.llen(errs) == 0) == z3.ForAll([j], z3.Implies(z3.And(0 <= j, j < L.i), dict_key_ok(K, v, M.kat(K, j))),
+                                         patterns=[M.kat(K, j)]),
+        errs_alloc(errs, L.alloc),
+        errs_located(errs, lambda e: dict_err_located(ct, e, Sx, K, v, base, z3.Select(L.ph, M.attr("path")(e)))),
+        _path_fixed(L))
+
+
+@invariant(VAL, "Validator.visit_dict", loop=1)
+def _inv_dict_extra(L):
+    """L7: earlier errors are kept; no error at all iff there was none before and every key of the value
+    seen so far is declared."""
+    ct = L.ct
+    errs, pre, v, Sx = L.v("result"), L.pre("result"), L.v("value"), L.v("schema")
+    K = S.prop(Sx, "keys")
+    base = _base(L)
+    j = z3.Int("xj")
+    return z3.And(
+        M.is_Ref(errs), M.rcls(errs) == ct.id("list"),
+        (M.llen(errs) == 0) == z3.And(M.llen(pre) == 0,
+                                      z3.ForAll([j], z3.Implies(z3.And(0 <= j, j < L.i), M.has(K, M.kat(v, j))),
+                                                patterns=[M.kat(v, j)])),
+        errs_alloc(errs, L.alloc),
+        errs_located(errs, lambda e: dict_err_located(ct, e, Sx, K, v, base, z3.Select(L.ph, M.attr("path")(e)))),
+        _path_fixed(L))
+
+
+@invariant(VAL, "Validator.visit_any", loop=0)
+def _inv_any(L):
+    """L8: no alternative seen so far accepts the value; nothing has been recorded."""
+    v, Sx = L.v("value"), L.v("schema")
+    t = S.prop(Sx, "types")
+    j = z3.Int("aj")
+    return z3.And(L.v("result") == L.pre("result"),
+                  z3.ForAll([j], z3.Implies(z3.And(0 <= j, j < L.i), z3.Not(S.conforms(M.lat(t, j), v))),
+                            patterns=[M.lat(t, j)]),
+                  _path_fixed(L))
